@@ -128,8 +128,38 @@ class _NpWith:
         return getattr(np, name)
 
 
+def _library_history():
+    """earlier uses of the library that a caller may have made in the same process, including calls that FAILED
+    (the failure is caught, as a caller would): they must leave no trace that later generation can see"""
+    from maze_dataset import MazeDataset, MazeDatasetConfig
+
+    for filters in ([dict(name="remove_duplicates", args=(), kwargs=dict(_max_dataset_len_threshold=1))],
+                    [dict(name="path_length", args=(), kwargs=dict(min_length=1)), dict(name="no_such_filter", args=(), kwargs={})],
+                    [dict(name="path_length", args=(), kwargs=dict(no_such_argument=1))]):
+        try:
+            MazeDataset.from_config(MazeDatasetConfig(name="hist", grid_n=3, n_mazes=3, seed=5, applied_filters=filters),
+                                    load_local=False, save_local=False, do_download=False)
+        except Exception:
+            pass
+    try:
+        MazeDataset.generate(MazeDatasetConfig(name="hist2", grid_n=2, n_mazes=1, seed=11,
+                                               endpoint_kwargs=dict(allowed_start=[(5, 5)], except_when_invalid=True)), gen_parallel=False)
+    except Exception:
+        pass
+    MazeDataset.generate(MazeDatasetConfig(name="other", grid_n=3, n_mazes=2, seed=99), gen_parallel=False)
+    MazeDatasetConfig(name="another", grid_n=5, n_mazes=1, seed=7)
+
+
 class ModelEnv:
     """install the RNG model everywhere the library (and set_reproducibility) reaches a global RNG"""
+
+    def forget(self):
+        """after the call history: every RNG is in a state that depends on that history again"""
+        self._py._g = None
+        self._npr._g = None
+        self._tch._seeded = False
+        self.m.unseeded.clear()
+        self.m.seeds.clear()
 
     SITES = [("muutils.mlutils", "random", "py"), ("muutils.mlutils", "np", "np"), ("muutils.mlutils", "torch", "torch"),
              ("maze_dataset.generation.generators", "random", "py"), ("maze_dataset.generation.generators", "np", "np"),
@@ -143,6 +173,7 @@ class ModelEnv:
 
         self.m = _Model()
         py, npr, gen, tch = PyRandomModel(self.m), NpRandomModel(self.m), GeneratorModel(self.m), TorchModel(self.m)
+        self._py, self._npr, self._tch = py, npr, tch
         objs = dict(py=py, np=_NpWith(npr), gen=gen, torch=tch)
         self._saved = []
         for mod, name, kind in self.SITES:
@@ -191,6 +222,11 @@ def _run_pure(job):
         from maze_dataset.dataset.dataset import GPTDataset
 
         with ModelEnv() as env:
+            try:
+                _library_history()
+            except HistoryDependentDraw:
+                pass
+            env.forget()
             try:
                 cfg = _cfg(job)  # constructing the configuration is part of the call history
                 plain = MazeDataset.generate(_strip_filters(cfg), gen_parallel=False)
@@ -247,8 +283,7 @@ def _prehistory(k):
         numpy_rng.random(2 + k)
     torch.rand(1 + k)
     if k:
-        MazeDataset.generate(MazeDatasetConfig(name="other", grid_n=3, n_mazes=2, seed=99), gen_parallel=False)
-        MazeDatasetConfig(name="another", grid_n=5, n_mazes=1, seed=7)
+        _library_history()
         np.random.rand(3)
         _pyrandom.random()
 
@@ -341,7 +376,7 @@ HARNESSES = {"pure": dict(run=_run_pure, replay=_replay_pure, real_sig=_real_sig
 META = dict(
     functions=["GPTDatasetConfig.__post_init__ -> muutils.mlutils.set_reproducibility", "MazeDataset.generate (serial)", "_maze_gen_init_worker", "_generate_maze_helper",
                "GPTDataset.from_config(load_local=False, save_local=False)", "GPTDataset._apply_filters_from_config", "the five generators", "LatticeMaze.generate_random_path"],
-    bounds=dict(quick="initial state of python random / numpy global RNG / torch RNG / numpy_rng arbitrary (symbolic); 5 generators x kwargs grid x seeds {0,1,42} at grid_n 3, "
+    bounds=dict(quick="initial state of python random / numpy global RNG / torch RNG / numpy_rng arbitrary (symbolic), after a fixed library-call history that includes failed from_config / generate calls; 5 generators x kwargs grid x seeds {0,1,42} at grid_n 3, "
                       "n_mazes 3, endpoint options and filter lists of length <= 2 cycled over the grid",
                 thorough="grid_n in {2,3,4}"),
     degenerate=dict(pure="on code where the property holds every draw is made from a freshly seeded RNG, so the run is a single concrete path; the symbolic initial RNG state only "
